@@ -247,12 +247,24 @@ L.axiom(T, "func-module-str", L.FA(f, L.is_str(L.fn("func_module", L.V, L.V)(f))
 # candidates of the function lookup: arbitrary objects with (maybe) __code__ / __wrapped__
 callee_code = declare_pred("callee_code", L.V, L.V, tag="Opt[Code]")
 declare_always_truthy("Callee")
-R.ATTRS[("Callee", "__code__?")] = lambda ip, r, default: ZV(callee_code(r.term), "Opt[Code]") if isinstance(default, PyC) and default.value is None else (_ for _ in ()).throw(Unsupported("default"))
-R.ATTRS[("Callee", "__wrapped__?")] = lambda ip, r, default: ZV(L.fn("callee_wrapped", L.V, L.V)(r.term), "Opt[Callee]")
+def _callee_getattr(name, fn_, tag_):
+    def h(ip, r, default):
+        if not (isinstance(default, PyC) and default.value is None):
+            raise Unsupported("getattr default")
+        # getattr(x, name, None) runs type(x).__getattribute__ / __getattr__: silent only for genuine function objects
+        ip.effect("getattr:" + name, is_plain_function(r.term), None)
+        return ZV(fn_(r.term), tag_)
+    return h
+
+
+is_plain_function = declare_pred("is_plain_function", L.V, L.B)
+R.ATTRS[("Callee", "__code__?")] = _callee_getattr("__code__", callee_code, "Opt[Code]")
+R.ATTRS[("Callee", "__wrapped__?")] = _callee_getattr("__wrapped__", L.fn("callee_wrapped", L.V, L.V), "Opt[Callee]")
 
 
 def _callee_isinstance(ip, r, a, kw, node):
     c = a[0]
+    ip.effect("isinstance", z3.BoolVal(False), node)
     name = c.path if isinstance(c, GlobalRef) else ("django_cached_property" if isinstance(c, ZV) else None)
     if name is None:
         raise Unsupported("isinstance(Callee, %r)" % (c,))
